@@ -5,118 +5,15 @@ ROOT = pathlib.Path(__file__).resolve().parent.parent
 NOTE_COMMON = ('Trusted: Coq 8.16.1 kernel; the hand-written Gallina model is tied to /repo only by the correspondence check '
                '(differential testing through harness/libdrive and/or the real binary); extraction (ExtrOcamlBasic only) + ocaml/drv_*.ml; '
                'Python generators/extractors. ')
-CHECKS = {
- 'C16': dict(
-    text='Machine-checked theorems (Props/C16.v, closed under the global context): for every Unicode table agreeing with ASCII, every rule '
-         'string and every conventional field / variant identifier of any length, the model of rename_all_to_case returns exactly what the '
-         'Gallina transliteration of serde_derive case.rs returns; unknown rules leave names unchanged; one refutation witness per finding '
-         'class. Tied to the code by a three-way exhaustive comparison (real typeshare / real case.rs / model) over class-representative '
-         'strings to length 5 (quick) or 7 (thorough).',
-    note=NOTE_COMMON + 'serde_derive case.rs taken from the offline cargo registry. Unicode tables: Section-style parameter (any table agreeing with ASCII).',
-    technique='Rocq proof by induction over identifiers + exhaustive three-way differential correspondence',
-    design='§11 C16'),
- 'C13': dict(
-    text='Machine-checked theorems (Props/C13.v, closed under the global context): for cfg predicates of any depth and arity the LIFO stack walk '
-         'of TargetOsIterator yields, as a multiset, exactly the OS names of a structural specification, so accept_target_os equals the '
-         'documented rule; empty target list filters nothing; predicates naming no OS never exclude; the walk terminates. Tied to the code by '
-         'running parser::parse on generated programs with the guard at 8 attachment positions and comparing presence with model and rule.',
-    note=NOTE_COMMON + 'syn is not modelled (attribute AST obtained from the same source text by harness/libdrive/src/ast.rs). Domain: nested cfg lists that parse as meta lists.',
-    technique='Rocq proof (induction on predicate size, permutation invariance) + differential correspondence through parser::parse',
-    design='§11 C13'),
- 'C18': dict(
-    text='Machine-checked theorems (Props/C18.v): for ALL integers v (hence all u64/i64) construction succeeds exactly when v is in the safe range '
-         'and returns v; conversions back, widening From<narrow>, narrowing TryFrom (the `as` cast modelled as explicit wrap-around and shown '
-         'to be the identity under the range check), usize saturation, serde JSON round trip and literal rejection (-0, fractions, exponents, '
-         'out-of-range) over a model of serde_json number classification; with Flocq: every safe integer converts to binary64 exactly and '
-         'injectively, and 2^53, 2^53+1 collapse. Tied to the code by running the real typeshare crate + serde_json on boundary sweeps and '
-         'stratified random values and comparing canonical result lines verbatim; node Number.isSafeInteger cross-checks the spec.',
-    note=NOTE_COMMON + 'Axioms (Print Assumptions, only in the Flocq/Reals theorems): ClassicalDedekindReals.sig_not_dec, ClassicalDedekindReals.sig_forall_dec, FunctionalExtensionality.functional_extensionality_dep, Classical_Prop.classic - all declared by Coq\'s standard library. serde_json number classification is modelled (Model/Integer.v classify) and validated by the correspondence.',
-    technique='Rocq proof (lia over Z, Flocq binary64) + exhaustive boundary sweep / stratified differential correspondence',
-    design='§11 C18'),
- 'C11': dict(
-    text='Machine-checked theorems (Props/C11.v, closed under the global context): toposort_impl (DFS with the early return on a cycle) maps EVERY '
-         'in-range graph - cycles, self-loops, duplicates - to a permutation of its nodes without panic and within fuel S n, and on acyclic '
-         'graphs puts every node after its dependencies; sort_by_indices computes data[indices[i]] for every permutation (cycle-leader '
-         'invariant); hence topsort emits a permutation of the items whenever dependency collection completes. The ordering half is proved '
-         'relative to the collected graph (theorem named _partial); that the collected graph contains every declarative reference outside '
-         'the recorded finding classes is checked on every generated case by the extracted predicate good_C11, not yet proved. Tied to the '
-         'code through the cfg(typeshare_verif) hooks: exhaustive small graphs / permutations, random larger ones, generated item sets.',
-    note=NOTE_COMMON + 'Hooks core::verif_hooks::{toposort_impl,sort_by_indices,topsort}. Dependency collection over the `types` map is not structurally recursive: modelled with fuel; fuel exhaustion corresponds to a real stack overflow (finding recorded under C07).',
-    technique='Rocq proof (DFS stack invariant, cycle-leader invariant, Permutation) + exhaustive/random differential correspondence via hooks',
-    design='§11 C11'),
- 'C08': dict(
-    text='Machine-checked theorems (Props/C08.v, closed under the global context): a type expression containing u64/i64/usize/isize or a non-empty '
-         'tuple anywhere - any depth, through generic arguments, references, arrays, slices, smart pointers - never parses (induction over the '
-         'nested type syntax); every annotated item using an unsupported construct in a non-skipped position (bad member / payload / alias / '
-         'const / serialized_as type, multi-field tuple struct or variant, serde(flatten), wrong tag/content, non-literal const) fails to '
-         'parse outside two recorded finding classes, each with a refutation witness; a skipped member is exactly as if absent. Tied to the '
-         'code by planting one construct into generated programs and comparing parser::parse with the model, the extracted Gallina '
-         'predicates judging the implementation; exit status / diagnostic / untouched output observed on the real binary.',
-    note=NOTE_COMMON + 'syn is not modelled. The process-level half (errors => non-zero exit, no file written) is observed on the real binary; its model lives with C17.',
-    technique='Rocq proof (induction over nested type syntax, case analysis of the item parsers) + planted-construct differential correspondence',
-    design='§11 C08'),
- 'C06': dict(
-    text='Machine-checked theorems (Props/C06.v, closed under the global context): in single-file mode, for any number of per-file parse '
-         'results and EVERY permutation of their arrival at the collector, the collector fold followed by reconcile_aliases hands the back end '
-         'the same four item lists (stable sort of permuted lists with distinct keys is unique; the serde-rename table answers every lookup '
-         'identically), all six modelled generators are functions of those lists, hence identical bytes; refutation witness for same-named '
-         'items. Real threads and hash seeds, which no model can exhibit, are observed directly: the real binary under all k! arrival orders '
-         '(hook) in single- and multi-file mode, and repeated fresh processes under taskset with 1..16 CPUs on trees of 100-300 files; the '
-         'identity order is compared byte for byte with the model. Multi-file mode (imports, hash-ordered fallbacks) is exercised, not proved.',
-    note=NOTE_COMMON + 'Partial w.r.t. the runtime: thread scheduling and HashMap seeds are sampled. Hook: cli/src/parse.rs TYPESHARE_VERIF_ORDER. The genuine defect found (consts never sorted) was repaired by the fix: commit recorded in KNOWN_FINDINGS.jsonl; the model follows the repaired code.',
-    technique='Rocq proof (permutation invariance of fold + stable sort, all arrival orders) + exhaustive arrival-order runs of the real binary via hook + repeated-process sampling',
-    design='§11 C06'),
- 'C20': dict(
-    text='Machine-checked theorems (Props/C20.v, closed under the global context): for EVERY file system, current directory and command line the '
-         'generating run of the CLI model (load_config with find_configuration_file, override_configuration, language()) equals a specification '
-         'built from effective(cli, file, default): the configuration file is the one named by -c, else the typeshare.toml of the nearest ancestor '
-         'directory, else none; swift-prefix, kotlin-prefix, java-package, both module names, scala-package and go-package reach the back-end '
-         'record as command line, else file, else default (one theorem per setting); type_mappings, default_decorators, generic constraints, '
-         'codablevoid_constraints, uppercase_acronyms and no_pointer_slice pass through unchanged and reach the back end as the file has them; the '
-         'only refusal is Go without a package; target_os comes from the command line only. -g: the run equals its specification, store_config '
-         'fails exactly when the target exists and then leaves the file system unchanged, touches no other path; under the explicit hypothesis '
-         'toml_roundtrip a stored configuration loads back identically on all persisted fields (target_os is #[serde(skip)] and stated as not '
-         'persisted), through -c and through discovery, and a later run naming the same location gets the back end of the command line that wrote '
-         'the file. Discovery: -c wins (only the named file matters), nearest ancestor, none iff no ancestor has the file, and the '
-         'push / is_file / pop-twice loop terminates within depth+1 iterations and equals the structural walk. Tied to the code through the REAL '
-         'BINARY: all 1024 joint {absent, present} combinations over the five main settings x 4 languages, random file-only tables x 6 languages, '
-         'discovery scenarios (depth 0-3, directory named typeshare.toml, unparsable nearest file, missing -c file), and -g runs whose emitted TOML '
-         'is parsed with tomllib, re-run (must fail, bytes identical), reloaded and compared with the direct run.',
-    note=NOTE_COMMON + 'toml and clap are NOT modelled: the serialiser/parser are universally quantified functions and the round trip is the explicit hypothesis '
-         'toml_roundtrip of the three round-trip theorems (forall c, de (ser c) = Some (persisted c)); it is shown satisfiable (Example C20_nonvacuous) and '
-         'validated empirically by the check on every table -g emits and every generated TOML file; the effect of #[serde(default)] (absent table/key = '
-         'Default) IS modelled (fill_config). clap: the options record is what the check typed, short/long/= spellings varied. kotlin/scala module_name is '
-         'never read by the back ends, so it is observable only through the TOML written by -g. The file system model has files only (no directories, '
-         'no `..` normalisation, parent of the -g target exists). Scala panics on an empty package and prints no package line for a dotless package: '
-         'the observation distinguishes only {empty, dotless, exact dotted value}. Uses its own result type (cres) because anyhow errors have no '
-         'counterpart in Model/Outcome.v.',
-    technique='Rocq proof (model = declarative specification for all inputs; structural recursion + fuelled-loop equivalence for discovery) + exhaustive matrix / random differential correspondence through the real binary',
-    design='§11 C20'),
-
- 'C17': dict(
-    text='Machine-checked theorems (Props/C17.v, closed under the global context) over a model of cli/src/writer.rs (check_write_file: read, compare, skip / '
-         'write-if-non-empty; write_single_file; write_multiple_files with the stop at the first failing crate; Swift post_generation / write_codable_file; '
-         'parse errors stop before the writer) on an abstract file system with modification times, for ANY initial file system, ANY clock values and run '
-         'histories of ANY length: an identical re-run - and any number of them after any history - leaves the file system literally unchanged, bytes and '
-         'mtimes (C17_idempotent, C17_idempotent_history); after any history every file the last run is responsible for whose generated bytes are non-empty '
-         'holds exactly what a run into an empty location produces (C17_fresh); a closed form says a responsible file is written iff its bytes differ and '
-         'the new bytes are non-empty (C17_write_iff_changed); files outside the run\'s reach are untouched (C17_untouched, _history). Swift\'s shared Codable.swift is covered with no '
-         'carve-out: an up-to-date file (contents plus the newline) is left untouched, anything else under that name is replaced '
-         '(C17_codable_up_to_date_untouched, C17_codable_stale_rewritten; the model follows /repo fix 0622333 - the finding C17-swift-codable-rewritten '
-         'this check discovered is now a fixed entry and a regression is a plain violation). One carve-out remains, stated exactly and with the '
-         'unrestricted statement refuted by a witness: empty generated output leaves a stale file in place (C17_empty_output_keeps_file, '
-         'C17_fresh_refuted; the real tool was never seen to produce an empty output). Tied to the code through the REAL BINARY: histories of up to '
-         '6 runs over 2-4 mutated versions of 1-4-crate source trees, -o and -d, six languages, empty and pre-seeded locations, transient parse errors and '
-         'generation failures; after every run bytes and last-writer of every file are compared with the model and judged by the extracted Spec predicates.',
-    note=NOTE_COMMON + 'The model abstracts the real file system: a finite map path -> (bytes, mtime) with one clock value per run; no directories, permissions, '
-         'symlinks, I/O errors or concurrent writers. The generated bytes are taken as given: a run receives the per-crate outputs (observed in a run of the '
-         'same sources into an empty location), so C17 says nothing about determinism of generation (C06). Domain: pairwise distinct output paths (dom_C17). '
-         'The check observes "written by this run" by setting every file to a fixed old mtime (os.utime) before each run. No libdrive harness is used.',
-    technique='Rocq proof (fold of compare-and-write steps, closed form per file, induction over run histories) + differential correspondence through the real binary with mtime observation',
-    design='§11 C17'),
-
-}
-NOT_YET = {}
+# One file per property under tools/manifest.d/<Cxx>.json with keys text, note, technique, design
+# (note may start with "{COMMON}" which expands to NOTE_COMMON). A property is claimed iff its file exists.
+CHECKS = {}
+for _f in sorted((ROOT / 'tools' / 'manifest.d').glob('C*.json')):
+    _c = json.loads(_f.read_text())
+    _c['note'] = _c['note'].replace('{COMMON}', NOTE_COMMON)
+    CHECKS[_f.stem] = _c
+# optional per-property reasons for not claiming: tools/manifest.d/<Cxx>.skip (plain text)
+NOT_YET = {f.stem: f.read_text().strip() for f in (ROOT / 'tools' / 'manifest.d').glob('C*.skip')}
 def main():
     props = [json.loads(l)['id'] for l in (ROOT / 'properties.jsonl').read_text().splitlines() if l.strip()]
     m = {
